@@ -79,6 +79,7 @@ fn main() {
             std::process::exit(2);
         }
     };
+    let _ = report::KNOWN_SIGS.set(report::load_known().findings.keys().filter(|k| k.0 == prop).map(|k| k.1.clone()).collect());
     let mut rep = PropReport::new(&prop, tier, seed);
     rep.secondary = secondary;
     rep.rule = plan.rule.clone();
